@@ -11,7 +11,13 @@ checks = []
 for pid in ALL:
     if pid not in P.PROPS:
         continue
-    t = T.TEXT[pid]
+    t = dict(T.TEXT[pid])
+    # the category follows the existence of theorems for the property (same rule as ./check uses for the evidence level)
+    has_module = os.path.exists(os.path.join(ROOT, "lean", "Properties", pid + ".lean"))
+    if has_module and t["category"] != "proof":
+        raise SystemExit(f"{pid}: lean/Properties/{pid}.lean exists but manifest_text.py still describes an exploration-level check")
+    if not has_module and t["category"] == "proof":
+        raise SystemExit(f"{pid}: manifest_text.py claims proof level but lean/Properties/{pid}.lean does not exist")
     checks.append({
         "property_id": pid,
         "quick_cmd": f"./check {pid} quick",
